@@ -35,7 +35,7 @@ SHRINK = {"ops": "list"}
 SPOTS = ["<table>x", "<table> y<tr>", "<table><b>bold", "<pre>\n", "<textarea>\n", "<listing>\n", "<pre>", "<textarea>a", "<title>t", "<script>s", "<style>s", "<plaintext>p", "<select><option>",
          "<p><b><i>", "<svg><foreignObject>", "<frameset>", "<table><caption>", "<form>", "<a>", "<nobr>", "<b><b><b>", "</body>x", "</html>y", "<head><noscript>", "<xmp>", "<!--", "<!DOCTYPE html>",
          "<table><td><table>z", "<body a=1>", "<html b=2>", "<math><mi>", "<iframe>", "<noembed>", "&amp", "<a b=\"", "<![CDATA[",
-         "<!DOCTYPE html PUBLIC \"-//W3C//DTD HTML 3.2//EN\">", "<p>q<table>t", "<style \xe9=1>s</style>", "<script \xe9>x</script>", "<!--\xe9-->", "<p>q<table><tr><td>c"]
+         "<!DOCTYPE html PUBLIC \"-//W3C//DTD HTML 3.2//EN\">", "<p>q<table>t", "caf&eacute; au lait&nbsp;&lt;&quot;x&amp;y", "&notin;&not;&nbsp;&euro;&ge;&gt;", "&lt;&le;&lang;&larr;&quot;&quest;", "<style \xe9=1>s</style>", "<script \xe9>x</script>", "<!--\xe9-->", "<p>q<table><tr><td>c"]
 CONF_BODY = ["<p>a</p>", "<table><tr><td>x</td></tr></table>", "<table> <tbody> <tr> <td>x</td> </tr> </tbody> </table>", "<pre>\n\nx</pre>", "<textarea>\nq</textarea>",
              "<form><input></form>", "<select><option>o</option></select>", "<ul><li>i</li></ul>", "<p><b>bold</b> <i>it</i></p>",
              "<table><caption>c</caption><tr><td><form><input></form></td></tr></table>", "<svg><g></g></svg>", "<div><a href=u>l</a></div>", "<table><colgroup><col></colgroup><tr><th>h</th></tr></table>",
@@ -47,6 +47,8 @@ OPEN_PREFIX = ["<table>", "<table><tr>", "<table><tr><td>", "<table><tbody>", "<
 BAD = ["<b>", "x", "</p>", "<td>", "</table>", "<form>", "<a href=v>", "\x00", "<table>", "</b>", "<li>", "<body>", "<html a=1>", "&#0;", "<input>", "<select>", "</tr>", "<!DOCTYPE html>", "</form>",
        "<svg>", "<i>", "<div>", "<p>", "<h2>", "<button>", "<nobr>", "</div>", "<caption>", "<col>", "<frameset>", "<head>", "<textarea>", "<plaintext>", "</body>x", "<image>", "&bogus;", "<a b=1 b=2>",
        "</br>", "<option>", "</select>", "<tr>"]
+ENT_TEXTS = ["caf&eacute; au lait &nbsp;x &lt;y &quot;z&amp;w &euro;5", "&nbsp;&lt;&quot;&not;&notin;&euro;&nbsp;&lt;&quot;", "a&zwj;b&zeta;c&Zopf;&le;&ge;&lang;&larr;",
+             "&aacute;&Aacute;&amp;&ang;&bull;&copy;&eacute;&ecirc;&egrave;", "x &quot;q&quot; &quest; &quot; &lt; &lambda; &le;", "&yen;&yacute;&xi;&weierp;&uuml;&times;&theta;&sigma;"]
 NAMES = ["e%d" % i for i in range(40)]
 SER_OPTS = [{}, {"omit_optional_tags": False}, {"quote_attr_values": "always", "alphabetical_attributes": True}, {"sanitize": True, "strip_whitespace": True}]
 CONTAINERS = [None, None, "div", "table", "textarea", "pre", "select", "title", "tr", "script"]
@@ -126,6 +128,8 @@ def _run_parse(parser, op, source=None):
     from html5lib.html5parser import ParseError
     src = source if source is not None else (op["text"].encode("utf-8", "surrogatepass") if op.get("bytes") else op["text"])
     kw = {"scripting": bool(op.get("scripting"))}
+    if op.get("label") is not None and op.get("bytes"):
+        kw[op.get("label_arg", "transport_encoding")] = op["label"]
     try:
         if op.get("container") is None:
             r = parser.parse(src, **kw)
@@ -140,6 +144,62 @@ def _run_parse(parser, op, source=None):
     errs = [(code, pos, dict(v) if isinstance(v, dict) else v) for (pos, code, v) in parser.errors]
     enc = parser.documentEncoding if op.get("bytes") else None
     return ("ok", obs.flat(r), errs, enc)
+
+
+class _Sched(object):
+    """Owns the interleaving of n worker threads at read() granularity: a worker blocks in every read() of its gated source until the
+    harness grants it; the harness grants one read at a time along the schedule and waits until that worker asks for its next read
+    (or finishes) before it grants the next one.  After the schedule is exhausted all workers run freely."""
+
+    def __init__(self, n):
+        self.n = n
+        self.cv = threading.Condition()
+        self.asking = [False] * n     # worker i is blocked in read(), waiting for a grant
+        self.grant = [0] * n
+        self.done = [False] * n
+        self.free = False
+
+    def source(self, i, text, step=6):
+        sched = self
+
+        class Gated(object):
+            def __init__(self):
+                self.pos = 0
+
+            def read(self, k=-1):
+                if k == 0:
+                    return ""
+                with sched.cv:
+                    if not sched.free:
+                        sched.asking[i] = True
+                        sched.cv.notify_all()
+                        sched.cv.wait_for(lambda: sched.free or sched.grant[i] > 0, timeout=10)
+                        sched.asking[i] = False
+                        if sched.grant[i] > 0:
+                            sched.grant[i] -= 1
+                out = text[self.pos:self.pos + step]
+                self.pos += len(out)
+                return out
+        return Gated()
+
+    def finished(self, i):
+        with self.cv:
+            self.done[i] = True
+            self.cv.notify_all()
+
+    def run(self, schedule):
+        with self.cv:
+            for k in schedule:
+                k %= self.n
+                # wait until worker k asks for a read (or is done), grant it, then wait until it has consumed the grant and asks again
+                self.cv.wait_for(lambda: self.asking[k] or self.done[k], timeout=5)
+                if self.done[k]:
+                    continue
+                self.grant[k] += 1
+                self.cv.notify_all()
+                self.cv.wait_for(lambda: self.done[k] or (self.grant[k] == 0 and self.asking[k]), timeout=5)
+            self.free = True
+            self.cv.notify_all()
 
 
 class Session(object):
@@ -211,38 +271,21 @@ class Session(object):
         if op.get("api") == "function":
             return self._threads_function(op)
         kinds = ["etree", "dom", "strict"][:len(op["texts"])]
-        gates = [threading.Semaphore(0) for _ in kinds]
-        free = threading.Event()
+        sched = _Sched(len(kinds))
         results = [None] * len(kinds)
-
-        class Gated(object):
-            def __init__(self, text, gate):
-                self.text, self.pos, self.gate = text, 0, gate
-
-            def read(self, n=-1):
-                if n == 0:
-                    return ""
-                if not free.is_set():
-                    self.gate.acquire(timeout=5)
-                out = self.text[self.pos:self.pos + 6]
-                self.pos += len(out)
-                return out
 
         def work(i):
             o = {"text": op["texts"][i], "scripting": False, "container": None}
             try:
-                results[i] = _run_parse(self.parsers[kinds[i]], o, Gated(op["texts"][i], gates[i]))
+                results[i] = _run_parse(self.parsers[kinds[i]], o, sched.source(i, op["texts"][i]))
             except BaseException as e:     # noqa
                 results[i] = ("crash", type(e).__name__, str(e)[:100])
+            finally:
+                sched.finished(i)
         ts = [threading.Thread(target=work, args=(i,)) for i in range(len(kinds))]
         for t in ts:
             t.start()
-        for k in op["schedule"]:
-            gates[k % len(kinds)].release()
-        free.set()
-        for g in gates:
-            for _ in range(4):
-                g.release()
+        sched.run(op["schedule"])
         for t in ts:
             t.join(20)
         if any(t.is_alive() for t in ts):
@@ -250,8 +293,9 @@ class Session(object):
         for i, kind in enumerate(kinds):
             o = {"text": op["texts"][i], "scripting": False, "container": None}
             # the same delivery (6 characters per read), but alone and on a brand-new parser
-            free_src = Gated(op["texts"][i], None)
-            want = _run_parse(_mk_parser(kind), o, free_src)
+            alone = _Sched(1)
+            alone.free = True
+            want = _run_parse(_mk_parser(kind), o, alone.source(0, op["texts"][i]))
             if results[i] != want:
                 return "threads-differ:" + kind, "parser %s running concurrently gives %s, alone %s for %s" % (kind, _brief(results[i]), _brief(want), short(op["texts"][i], 120))
         return None
@@ -270,40 +314,26 @@ def _threads_function(self, op):
     contract; whatever the function shares internally must not show)"""
     n = len(op["texts"])
     builders = ["etree", "etree", "dom"][:n]
-    gates = [threading.Semaphore(0) for _ in range(n)]
-    free = threading.Event()
+    sched = _Sched(n)
     results = [None] * n
 
-    class Gated(object):
-        def __init__(self, text, gate):
-            self.text, self.pos, self.gate = text, 0, gate
-
-        def read(self, k=-1):
-            if k == 0:
-                return ""
-            if not free.is_set() and self.gate is not None:
-                self.gate.acquire(timeout=5)
-            out = self.text[self.pos:self.pos + 6]
-            self.pos += len(out)
-            return out
-
     def work(i):
-        results[i] = _fn_parse(Gated(op["texts"][i], gates[i]), builders[i])
+        try:
+            results[i] = _fn_parse(sched.source(i, op["texts"][i]), builders[i])
+        finally:
+            sched.finished(i)
     ts = [threading.Thread(target=work, args=(i,)) for i in range(n)]
     for t in ts:
         t.start()
-    for k in op["schedule"]:
-        gates[k % n].release()
-    free.set()
-    for g in gates:
-        for _ in range(4):
-            g.release()
+    sched.run(op["schedule"])
     for t in ts:
         t.join(20)
     if any(t.is_alive() for t in ts):
         return "inconclusive", "a thread did not finish"
     for i in range(n):
-        want = _fn_parse(Gated(op["texts"][i], None), builders[i])
+        alone = _Sched(1)
+        alone.free = True
+        want = _fn_parse(alone.source(0, op["texts"][i]), builders[i])
         if results[i] != want:
             return "threads-differ:function", "html5lib.parse(treebuilder=%r) running concurrently gives %s, alone %s for %s" % (builders[i], short(results[i], 200), short(want, 200), short(op["texts"][i], 120))
     return None
@@ -391,6 +421,13 @@ class ReuseMachine(RuleBasedStateMachine):
             text = text + "<meta charset=koi8-r>\xe9"
         self._do({"op": "parse", "p": p, "text": text, "scripting": scripting, "container": container, "bytes": as_bytes and container is None, "stateful": stateful})
 
+    # encoding labels (valid ones and look-alikes that only sloppy normalisation would accept) given to one parser after the other:
+    # whatever a label lookup remembers must not make a later, different label resolve differently
+    @rule(d=_doc_free, p=st.sampled_from(["etree", "dom"]), arg=st.sampled_from(["transport_encoding", "override_encoding", "likely_encoding", "default_encoding"]),
+          label=st.sampled_from(["koi8-r", "\u212aOI8-R", "\xa0koi8-r", "koi8-r\x0b", "KOI8-R", " koi8-r ", "shift_jis", "\x1fshift_jis", "Shift_JIS", "bogus", "utf-8", "\u017fhift_jis"]))
+    def parse_labelled(self, d, p, arg, label):
+        self._do({"op": "parse", "p": p, "text": d[0] + "\xe9\u0436", "scripting": False, "container": None, "bytes": True, "label": label, "label_arg": arg, "stateful": d[1]})
+
     # rules are chosen uniformly: two more spellings of the plain document parse give it the weight that histories of
     # (aborted parse, completed parse) pairs on one object need
     @rule(d=_doc, p=st.sampled_from(["etree", "dom", "strict", "strict", "strict"]), scripting=st.booleans())
@@ -416,6 +453,14 @@ class ReuseMachine(RuleBasedStateMachine):
     @rule(ds=st.lists(_doc, min_size=2, max_size=3), schedule=st.lists(st.integers(0, 2), max_size=30))
     def threads(self, ds, schedule):
         self._do({"op": "threads", "texts": [d[0] for d in ds], "schedule": schedule, "stateful": 0})
+
+    # both threads in the middle of character references at every switch (process-wide entity lookup structures)
+    @rule(ts=st.lists(st.sampled_from(ENT_TEXTS), min_size=2, max_size=3), schedule=st.lists(st.integers(0, 2), min_size=4, max_size=40), api=st.sampled_from([None, "function"]))
+    def threads_entities(self, ts, schedule, api):
+        op = {"op": "threads", "texts": ["<!DOCTYPE html><title>t</title><p>" + t for t in ts], "schedule": schedule, "stateful": 0}
+        if api:
+            op["api"] = api
+        self._do(op)
 
     @rule(ds=st.lists(_doc, min_size=2, max_size=3), schedule=st.lists(st.integers(0, 2), max_size=30))
     def threads_function(self, ds, schedule):
